@@ -2,6 +2,7 @@ package props
 
 import (
 	"context"
+	"encoding/json"
 	"fmt"
 	"runtime"
 	"strings"
@@ -58,6 +59,27 @@ type c18Env struct {
 	px     *kit.Proxy // forwards everything unless told to answer a method with an error
 	c      client.Client
 	cookie client.MonitorCookie
+	// inject, when set, is consulted for every message (see the proxy's tamper hook);
+	// lastCookie is the JSON cookie of the last monitor request seen (any method)
+	mu         sync.Mutex
+	inject     func(dir int, method string, id json.RawMessage, raw json.RawMessage) (forward, back []json.RawMessage)
+	lastCookie json.RawMessage
+	lastMethod string
+	pendingID  string
+}
+
+// bogusNotification is an update for the monitor with the given cookie that modifies a
+// row nobody has: the client cannot apply it.
+func bogusNotification(method string, cookie json.RawMessage) json.RawMessage {
+	body := `{"T1":{"00000000-0000-4000-8000-000000999999":{"modify":{"v":1.5}}}}`
+	switch method {
+	case "monitor":
+		return json.RawMessage(`{"method":"update","params":[` + string(cookie) + `,{"T1":{"00000000-0000-4000-8000-000000999999":{"old":{"v":1.5},"new":{"v":2.5}}}}],"id":null}`)
+	case "monitor_cond":
+		return json.RawMessage(`{"method":"update2","params":[` + string(cookie) + `,` + body + `],"id":null}`)
+	default:
+		return json.RawMessage(`{"method":"update3","params":[` + string(cookie) + `,"00000000-0000-0000-0000-000000000000",` + body + `],"id":null}`)
+	}
 }
 
 // monitorThroughRefusingServer: a Monitor call for T1 while the server side answers the
@@ -146,6 +168,69 @@ var c18Failing = []struct {
 		defer cancel()
 		_, err := e.c.Transact(ctx, ovsdb.Operation{Op: "select", Table: "T0", Where: []ovsdb.Condition{}})
 		return err
+	}},
+	{"monitor:table-already-monitored", func(e *c18Env) error {
+		// with MonitorAll in place the reply of a second monitor on T0 cannot be applied
+		// (its row is cached already); without it the call simply succeeds
+		ctx, cancel := e.ctx()
+		defer cancel()
+		_, err := e.c.Monitor(ctx, e.c.NewMonitor(client.WithTable(e.w.NewModel("T0"))))
+		return err
+	}},
+	{"monitor:notification-that-cannot-be-applied-before-the-reply", func(e *c18Env) error {
+		// the server (proxy) sends, right before the monitor reply, an update for that very
+		// monitor which modifies a row nobody has: it is deferred, then fails to apply
+		e.mu.Lock()
+		e.inject = func(dir int, method string, id json.RawMessage, raw json.RawMessage) ([]json.RawMessage, []json.RawMessage) {
+			if dir == kit.C2S && strings.HasPrefix(method, "monitor") && method != "monitor_cancel" {
+				e.pendingID = string(id)
+			}
+			if dir == kit.S2C && method == "" && e.pendingID != "" && string(id) == e.pendingID {
+				e.pendingID = ""
+				return []json.RawMessage{bogusNotification(e.lastMethod, e.lastCookie), raw}, nil
+			}
+			return nil, nil
+		}
+		e.mu.Unlock()
+		defer func() { e.mu.Lock(); e.inject = nil; e.mu.Unlock() }()
+		ctx, cancel := e.ctx()
+		defer cancel()
+		_, err := e.c.Monitor(ctx, e.c.NewMonitor(client.WithTable(e.w.NewModel("T1"))))
+		return err
+	}},
+	{"monitorcancel:notification-that-cannot-be-applied-in-flight", func(e *c18Env) error {
+		// the server (the proxy, which unlike libovsdb's server implements monitor_cancel)
+		// first sends an update the client cannot apply - the client will want to drop the
+		// connection while MonitorCancel is still waiting - and answers 60 ms later
+		// (the monitor is a monitor_cond one: its update2 notifications are the ones whose
+		// failure makes the client rebuild its cache)
+		mctx, mcancel := e.ctx()
+		mon := e.c.NewMonitor(client.WithTable(e.w.NewModel("T1")))
+		mon.Method = ovsdb.ConditionalMonitorRPC
+		ck, merr := e.c.Monitor(mctx, mon)
+		mcancel()
+		if merr != nil {
+			return fmt.Errorf("harness: monitor_cond on T1: %w", merr)
+		}
+		e.mu.Lock()
+		cookie, method := e.lastCookie, e.lastMethod
+		e.inject = func(dir int, m string, id json.RawMessage, raw json.RawMessage) ([]json.RawMessage, []json.RawMessage) {
+			if dir == kit.C2S && m == "monitor_cancel" && cookie != nil {
+				reply := json.RawMessage(`{"id":` + string(id) + `,"result":{},"error":null}`)
+				return []json.RawMessage{}, []json.RawMessage{bogusNotification(method, cookie), json.RawMessage(`"sleep:60ms"`), reply}
+			}
+			return nil, nil
+		}
+		e.mu.Unlock()
+		defer func() { e.mu.Lock(); e.inject = nil; e.mu.Unlock() }()
+		ctx, cancel := e.ctx()
+		defer cancel()
+		if err := e.c.MonitorCancel(ctx, ck); err != nil {
+			return err
+		}
+		// the call itself succeeds; what has to fail is nothing: this entry is about the
+		// follow-up calls while the client reconnects
+		return fmt.Errorf("(no error expected)")
 	}},
 	{"transact:validation", func(e *c18Env) error {
 		ctx, cancel := e.ctx()
@@ -382,6 +467,25 @@ func newC18Env(tb testing.TB, w *kit.World, opts ...client.Option) *c18Env {
 		tb.Fatalf("seed: %v", err)
 	}
 	e := &c18Env{w: w, srv: srv, px: px, c: c}
+	px.SetTamper2(func(dir int, raw json.RawMessage) ([]json.RawMessage, []json.RawMessage) {
+		var msg struct {
+			Method string            `json:"method"`
+			Params []json.RawMessage `json:"params"`
+			ID     json.RawMessage   `json:"id"`
+		}
+		if json.Unmarshal(raw, &msg) != nil {
+			return nil, nil
+		}
+		e.mu.Lock()
+		defer e.mu.Unlock()
+		if dir == kit.C2S && strings.HasPrefix(msg.Method, "monitor") && msg.Method != "monitor_cancel" && len(msg.Params) >= 2 {
+			e.lastCookie, e.lastMethod = msg.Params[1], msg.Method
+		}
+		if e.inject != nil {
+			return e.inject(dir, msg.Method, msg.ID, raw)
+		}
+		return nil, nil
+	})
 	return e
 }
 
